@@ -624,7 +624,7 @@ def run(ctx):
                "READY in answer to AUTH_RESPONSE may be accepted or refused; a forced compression algorithm that is not available on both sides may "
                "fail the connection or go on uncompressed")
     rng = ctx.rng
-    budget = 42 if ctx.quick else 400
+    budget = 38 if ctx.quick else 400
     import time
     t_run0 = time.time()          # the budget counts from here (imports done); at most 25 s of start-up slack on a loaded machine
     base = ctx.seed * 1000003 + (ctx.worker or 0) * 100003
